@@ -144,6 +144,21 @@ std::vector<DV> batch_dv(const std::vector<bytes> &files, const std::vector<byte
     for (size_t i = lo; i < hi; i++)
     {
       ChildResult q = run_in_child([&]() { return run_batch(files, keys, i, i + 1, T, chunk, refill); }, 60);
+      if (q.status == CH_TIMEOUT && wapi::has_scheduler())
+      {
+        // one file, canonical schedule, deterministic scheduler: milliseconds of work. No result within 60 s means a
+        // loop that reaches neither a schedule point nor a stream callback (the step and callback bounds cannot
+        // fire). Once more with three times the time; two timeouts in a row are reported as an endless loop.
+        ChildResult q2 = run_in_child([&]() { return run_batch(files, keys, i, i + 1, T, chunk, refill); }, 180);
+        if (q2.status == CH_TIMEOUT)
+        {
+          out[i].evaluated = true;
+          out[i].st = CH_STEPLIMIT;
+          out[i].detail = "endless loop: no result within 60 s and again within 180 s under the deterministic scheduler (a file of this size takes milliseconds; neither a schedule point nor a stream callback was reached in the meantime)";
+          return out;
+        }
+        q = q2;
+      }
       if (q.status == CH_OK)
         decode_batch(q.payload, out, i, i + 1);
       else
